@@ -47,7 +47,8 @@ class C16(core.Check):
     chunk = 1200
     required_buckets = {b: 3 for b in ['line>6-bytes', 'line>16-bytes', 'gap-without-org', 'muted-region', 'zero-length-line',
                                        'included-file', 'predefined-data', 'width:4', 'width:8', 'width:12', 'width:16',
-                                       'width:24', 'width:32', 'every-line-length-1..40', 'fmt:listing', 'fmt:hex', 'fmt:intel_hex', 'fmt:minhex']}
+                                       'width:24', 'width:32', 'every-line-length-1..40', 'fmt:listing', 'fmt:hex', 'fmt:intel_hex', 'fmt:minhex',
+                                       'zero-length-at-gap-edge', 'gap:align', 'gap:memzone', 'gap:muted', 'gap:zone-org']}
     required_buckets['every-line-length-1..40'] = 2
     required_buckets['several-statements-per-line'] = 3
 
@@ -98,6 +99,43 @@ class C16(core.Check):
             yield self.make_case(isa, {'p.asm': ''.join(l['text'] + '\n' for l in lines)}, 'p.asm', [], res, ids,
                                  {'width:16', 'every-line-length-1..40'})
 
+    def gap_cases(self):
+        """a gap in the address map made by something other than .org, with zero-length statements at its edges"""
+        zones = [{'name': 'ZG', 'start': 0x40, 'end': 0x7F}]
+        gaps = {'align': [{'k': 'align', 'p': 8}], 'memzone': [{'k': 'memzone', 'name': 'ZG'}],
+                'muted': [{'k': 'mute'}, {'k': 'data', 'width': 1, 'vals': [0x71, 0x72, 0x73]}, {'k': 'unmute', 'text': '#unmute'}],
+                'zone-org': [{'k': 'org', 'addr': 5, 'zone_name': 'ZG'}], 'org': [{'k': 'org', 'addr': 0x30, 'zone_name': None}],
+                'fill': [{'k': 'mute'}, {'k': 'fill', 'n': 5, 'v': 1}, {'k': 'unmute', 'text': '#unmute'}]}
+        zeros = {'none': [], 'fill0': [{'k': 'fill', 'n': 0, 'v': 7}], 'zero0': [{'k': 'zero', 'n': 0}],
+                 'zerountil-behind': [{'k': 'zerountil', 'a': 0}], 'label+fill0': [{'k': 'label', 'name': 'at_gap'}, {'k': 'fill', 'n': 0, 'v': 1}]}
+        k = 0
+        for gname, gap in gaps.items():
+            for zname, zero in zeros.items():
+                for where in ('after-gap', 'before-gap', 'both'):
+                    if zname == 'none' and where != 'after-gap':
+                        continue
+                    rng = core.rng_for(0, self.pid, 'gap', k)
+                    k += 1
+                    isa = gen_prog.layout_isa(16, zones=zones)
+                    import copy
+                    z1 = copy.deepcopy(zero) if where in ('before-gap', 'both') else []
+                    z2 = copy.deepcopy(zero) if where in ('after-gap', 'both') else []
+                    for it in z2:
+                        if it.get('name'):
+                            it['name'] = 'at_gap2'
+                    lines = [{'k': 'data', 'width': 1, 'vals': [0x11, 0x12, 0x13]}] + z1 + copy.deepcopy(gap) + z2 + \
+                        [{'k': 'data', 'width': 1, 'vals': [0x21, 0x22]}, {'k': 'data', 'width': 2, 'vals': [0x3132]}]
+                    res = layout.layout(lines, 16, origin=0, predefined_zones=zones, size_of=lambda l, a: gen_prog.byte_line_size(isa, l))
+                    if res.kind != 'ACCEPT':
+                        continue
+                    layout.memory_map(res, lambda l: gen_prog.byte_line_bytes(isa, l, None, {'GLOBAL': (0, 65535), 'ZG': (0x40, 0x7F)}))
+                    for l in lines:
+                        l['text'] = gen_prog.render_line(l, None)
+                    ids = {id(l): ('p.asm', n + 1) for n, l in enumerate(lines)}
+                    yield self.make_case(isa, {'p.asm': ''.join(l['text'] + '\n' for l in lines)}, 'p.asm', [], res, ids,
+                                         {'width:16', 'gap:' + gname, 'zero-length:' + zname + '/' + where, 'gap-without-org' if gname != 'org' else 'gap-by-org',
+                                          'zero-length-at-gap-edge' if zname != 'none' else 'plain-gap'})
+
     def compound_cases(self, tier, seed):
         """several statements on one source line (label in front of a statement, joined instructions): the listing must show
         each statement exactly once, in address order, under the same line number"""
@@ -143,6 +181,7 @@ class C16(core.Check):
         yield from self.corpus_cases(tier)
         yield from self.length_cases()
         yield from self.compound_cases(tier, seed)
+        yield from self.gap_cases()
         n_pre = 90
         n = 90 if tier == 'quick' else 2500
         for i in range(n_pre + n):
